@@ -30,9 +30,10 @@ type hop struct {
 }
 
 type tc struct {
-	T string `json:"t"`
-	C string `json:"c"`
-	H []hop  `json:"h"`
+	T string   `json:"t"`
+	C string   `json:"c"`
+	H []hop    `json:"h"`
+	S []string `json:"sib"` // hex: sibling spellings converted (results discarded) before the identifier
 }
 
 type res map[string]any
@@ -146,6 +147,18 @@ func one(c tc) res {
 	tmpl, content := string(tb), string(cb)
 	out := res{}
 	out["fmt"] = callStr(func() (string, error) { return format.FileNamingFormat(tmpl, content) })
+	for _, h := range c.S { // earlier conversions of other strings in the same process
+		if sb, err := hex.DecodeString(h); err == nil {
+			sib := string(sb)
+			callStr(func() (string, error) {
+				cm := stringx.From(sib).ToCamel()
+				stringx.From(sib).ToSnake()
+				stringx.From(cm).ToSnake()
+				stringx.From(sib).UnTitle()
+				return cm, nil
+			})
+		}
+	}
 	camel := callStr(func() (string, error) { return stringx.From(content).ToCamel(), nil })
 	out["camel"] = camel
 	out["snake"] = callStr(func() (string, error) { return stringx.From(content).ToSnake(), nil })
